@@ -42,7 +42,7 @@ Definition allowed_path (handles : list path) (mnt : option path) (s : list N) :
   let p := comps_of s in
   existsb (path_eqb p) handles
   || existsb (fun hp => match rev p with c :: rp => path_eqb (rev rp) hp && (validate_name c =? st_ok) | [] => false end) handles
-  || match mnt with Some m => path_eqb p m | None => false end.
+  || match mnt with Some m => match p with [] => false | _ => is_prefix p m end | None => false end.   (* MNT: the cleaned path and its prefixes *)
 
 Definition spec_step (x : octx) : list (N * N) :=
   let st := oc_step x in let r := hs_req (i_step st) in
